@@ -235,6 +235,17 @@ CLAIMED.update({
     ),
 })
 
+CLAIMED.update({
+    "C25": dict(
+        level="other",
+        note="Trusted: CPython ast; zlib's raw-deflate convention; pydicom's read_dataset/write_dataset/write_file_meta_info. "
+        "NOT decided: the property's core - equality of the decoded data set with the original for every VR and value - is "
+        "pydicom's codec and outside any static argument here; only the named structural necessary conditions are decided.",
+        technique="call-site argument matching against read callee signatures (siblings, 45 sites) + shape checks of the deflate and chunked paths + dominance over a hand-built CFG (ast)",
+        ref="4/C25",
+    ),
+})
+
 PENDING = "designed in DESIGN.md section 4, checker not built yet - not claimed through a stub"
 
 NOT_APPLICABLE = {
